@@ -451,6 +451,10 @@ def verlet_oracle(ck, rng):
     src = inspect.getsource(verlet.update_nodes)
     M = rng.choice([2, 3]); dt = F(rng.randint(1, 4), 8); t0 = F(0)
     k = rfrac(rng, 1, 4)
+    quad = rng.choice(['LOBATTO', 'LOBATTO', 'RADAU-RIGHT', 'RADAU-LEFT', 'GAUSS'])
+    ntype = rng.choice(['LEGENDRE', 'LEGENDRE', 'EQUID'])
+    dcu = rng.random() < 0.5
+    with_tau = rng.random() < 0.4
 
     class PV:
         def __init__(self, init, val=0):
@@ -483,7 +487,7 @@ def verlet_oracle(ck, rng):
         def u_init(self):
             return PV(1)
     try:
-        L = ex.make_level(verlet, {'num_nodes': M, 'quad_type': 'LOBATTO', 'QI': 'IE', 'QE': 'EE'}, Osc, {}, dt)
+        L = ex.make_level(verlet, {'num_nodes': M, 'quad_type': quad, 'node_type': ntype, 'do_coll_update': dcu, 'QI': 'IE', 'QE': 'EE'}, Osc, {}, dt)
     except Exception as e:
         ck.notes.append('verlet oracle skipped: %s' % e)
         return
@@ -500,8 +504,24 @@ def verlet_oracle(ck, rng):
         L.f[m] = P.eval_f(L.u[m], t0)
     uo = [(L.u[m].pos.v[0], L.u[m].vel.v[0]) for m in range(M + 1)]
     fo = [L.f[m].v[0] for m in range(M + 1)]
+    taus = [None] * (M + 1)
+    if with_tau:
+        for m in range(1, M + 1):
+            t = PV(1); t.pos = ex.FracVec([rfrac(rng, -2, 2)]); t.vel = ex.FracVec([rfrac(rng, -2, 2)])
+            L.tau[m - 1] = t
+            taus[m] = (t.pos.v[0], t.vel.v[0])
+    tv = lambda m, i: (taus[m][i] if taus[m] is not None else 0)
+    # table fact used by C02_verlet_end_point_second_order_form: qQ = w^T Q (float table vs exact product of the float images)
+    wQ = [sum(sw.coll.weights[n] * sw.coll.Qmat[n + 1, j + 1] for n in range(M)) for j in range(M)]
+    scale = max([abs(x) for x in wQ] + [F(1, 10)])
+    if any(abs(sw.qQ[j] - wQ[j]) > F(1, 10**13) * scale for j in range(M)):
+        ck.violation('verlet.qQ is not w^T Q (the weights of the position end value in second-order form)',
+                     {'M': M, 'quad_type': quad, 'node_type': ntype, 'qQ': [float(x) for x in sw.qQ], 'wTQ': [float(x) for x in wQ]},
+                     match={'kind': 'verlet-qQ-table'})
     try:
         sw.update_nodes()
+        integ = sw.integrate()
+        sw.compute_end_point()
     except Exception as e:
         ck.notes.append('verlet oracle skipped (exact run failed: %s)' % type(e).__name__)
         return
@@ -512,23 +532,39 @@ def verlet_oracle(ck, rng):
     for m in range(1, M + 1):
         # positions:  x_m - dt^2 sum_{j<m} Qx[m,j] f_new_j = x0 + dt (sum_j Q[m,j]) v0 + dt^2 sum_j (QQ - Qx)[m,j] f_old_j
         lhs = un[m][0] - dt * dt * sum(Qx[m, j] * fn[j] for j in range(1, m))
-        rhs = uo[0][0] + dt * sum(Q[m, j] for j in range(1, M + 1)) * uo[0][1] + dt * dt * sum((QQ[m, j] - Qx[m, j]) * fo[j] for j in range(1, M + 1))
+        rhs = uo[0][0] + dt * sum(Q[m, j] for j in range(1, M + 1)) * uo[0][1] + dt * dt * sum((QQ[m, j] - Qx[m, j]) * fo[j] for j in range(1, M + 1)) + tv(m, 0)
         if lhs != rhs:
             bad = ('position', m)
         # velocities: v_m - dt sum_{j<=m} QT[m,j] f_new_j = v0 + dt sum_j (Q - QT)[m,j] f_old_j
         lhs = un[m][1] - dt * sum(QT[m, j] * fn[j] for j in range(1, m + 1))
-        rhs = uo[0][1] + dt * sum((Q[m, j] - QT[m, j]) * fo[j] for j in range(1, M + 1))
+        rhs = uo[0][1] + dt * sum((Q[m, j] - QT[m, j]) * fo[j] for j in range(1, M + 1)) + tv(m, 1)
         if lhs != rhs:
             bad = ('velocity', m)
         if fn[m] != -k * un[m][0]:
             bad = ('f_consistent', m)
-    ck.case(key=('VERLET', M), sample=None)
+    # end value: the last node exactly when configured so, else x0 + dt sum_n w_n (v0 + dt sum_j Q_nj f_j) / v0 + dt sum w_m f_m (+ tau[-1])
+    w = sw.coll.weights
+    rin = bool(sw.coll.right_is_node)
+    ue = (L.uend.pos.v[0], L.uend.vel.v[0])
+    if rin and not sw.params.do_coll_update:
+        want = un[M]
+    else:
+        want = (uo[0][0] + dt * sum(w[n] for n in range(M)) * uo[0][1] + dt * dt * sum(sw.qQ[j] * fn[j + 1] for j in range(M)) + tv(M, 0),
+                uo[0][1] + dt * sum(w[n] * fn[n + 1] for n in range(M)) + tv(M, 1))
+    if ue != want:
+        bad = ('end_point', 'copy' if (rin and not sw.params.do_coll_update) else 'quadrature')
+    ck.case(key=('VERLET', M, quad, ntype, bool(sw.params.do_coll_update), with_tau), sample=None)
     if bad:
-        ck.violation('verlet sweeper violates its position/velocity block form', {'M': M, 'dt': str(dt), 'failure': bad}, match={'kind': 'verlet-' + bad[0]})
+        ck.violation('verlet sweeper violates its position/velocity block form', {'M': M, 'dt': str(dt), 'quad_type': quad, 'node_type': ntype, 'do_coll_update': bool(sw.params.do_coll_update), 'tau': with_tau, 'failure': bad},
+                     match={'kind': 'verlet-' + bad[0]})
     fields = ['v_M := %d%%nat' % M, 'v_dt := %s' % qc(dt), 'v_t0 := %s' % qc(t0), 'v_nodes := %s' % qcl([0] + list(sw.coll.nodes)),
               'v_Q := %s' % qcm(Q.tolist()), 'v_QQ := %s' % qcm(QQ.tolist()), 'v_Qx := %s' % qcm(Qx.tolist()), 'v_QT := %s' % qcm(QT.tolist()),
-              'v_k := %s' % qc(k), 'v_p := %s' % qcl([a for a, _ in uo]), 'v_v := %s' % qcl([b for _, b in uo]), 'v_f := %s' % qcl(fo)]
-    expected = [a for a, _ in un[1:]] + [b for _, b in un[1:]] + fn[1:]
+              'v_k := %s' % qc(k), 'v_p := %s' % qcl([a for a, _ in uo]), 'v_v := %s' % qcl([b for _, b in uo]), 'v_f := %s' % qcl(fo),
+              'v_w := %s' % qcl([0] + list(w)), 'v_qQ := %s' % qcl([0] + list(sw.qQ)),
+              'v_taup := %s' % coq_list(['None' if t is None else '(Some %s)' % qc(t[0]) for t in taus]),
+              'v_tauv := %s' % coq_list(['None' if t is None else '(Some %s)' % qc(t[1]) for t in taus]),
+              'v_rin := %s' % coq_bool(rin), 'v_dcu := %s' % coq_bool(bool(sw.params.do_coll_update))]
+    expected = ([a for a, _ in un[1:]] + [b for _, b in un[1:]] + fn[1:] + [i.pos.v[0] for i in integ] + [i.vel.v[0] for i in integ] + [ue[0], ue[1]])
     return '({| %s |}, %s)' % ('; '.join(fields), qcl(expected))
 
 
@@ -541,7 +577,7 @@ def run(ck):
     ck.rule = ('seeded cases over (sweeper class, M, node family, quadrature type, preconditioner name(s), sweep index k, tau mode, '
                'end-point mode, table source exact-float-image/injected-rational, dimension); distinct = that tuple; non-trivial = M >= 2 '
                'or tau present (a one-node sweep without tau has no off-diagonal coupling)')
-    ck.check_props(required=['C02_generic_implicit_matrix_form', 'C02_imex_matrix_form', 'C02_explicit_matrix_form', 'C02_multi_implicit_two_stage_form', 'C02_runge_kutta_stage_form', 'C02_imex_mass_matrix_form', 'C02_verlet_block_form',
+    ck.check_props(required=['C02_generic_implicit_matrix_form', 'C02_imex_matrix_form', 'C02_explicit_matrix_form', 'C02_multi_implicit_two_stage_form', 'C02_runge_kutta_stage_form', 'C02_imex_mass_matrix_form', 'C02_verlet_block_form', 'C02_verlet_end_point_form', 'C02_verlet_end_point_second_order_form',
                              'C02_integrate_is_dtQF', 'C02_end_point_quadrature', 'C02_residual_is_defect'])
     from qmat.qdelta import QDELTA_GENERATORS
     from pySDC.implementations.sweeper_classes.generic_implicit import generic_implicit
@@ -672,7 +708,7 @@ def run(ck):
                              {'correspondence': 'Model/SweepExec.run_mass vs imex_1st_order_mass', 'first_differing': [r for r in res if r != -1][:5]},
                              match={'kind': 'mass-correspondence'}, no_input=True)
             ck.obligation('exact correspondence mass-sweeper model = implementation on %d cases' % len(res), nb == 0)
-    vcases = [c for c in (verlet_oracle(ck, rng) for _ in range(24 if thorough else 8)) if c]
+    vcases = [c for c in (verlet_oracle(ck, rng) for _ in range(120 if thorough else 30)) if c]
     if vcases:
         body = ['From Coq Require Import List ZArith QArith Qcanon.', 'From PySDC Require Import Model.Sweep Model.SweepExec.',
                 'Import ListNotations.', 'Definition cases : list (vcase * list Qc) := [', ';\n'.join(vcases), '].',
